@@ -657,7 +657,7 @@ def r7(ctx):
 
 
 
-def r8(ctx):
+def r8(ctx, _shared=True):
     """ContrastsState forwards reduced_rank / sparse to the contrasts object; the C() encoder and the encoding cache treat a contrast-coded
     factor correctly (= C03.R6 cache key, C06.R2/R3 positional row removal in the encoder closures)."""
     P = ctx.project
@@ -673,8 +673,18 @@ def r8(ctx):
                   f"returns `{norm(c) if c is not None else None}`: a dropped keyword silently returns the matrix for the default rank mode")
     from .shared import relabel
     from . import c06
-    relabel(ctx, "C11.R8", c03.r6, c06.r3)
+    if _shared:
+        relabel(ctx, "C11.R8", c03.r6, c06.r3)
 
+
+def _r8_parts():
+    from .shared import relabel
+    from . import c06
+    from .shared import relabel_parts
+    return [lambda c: r8(c, _shared=False)] + relabel_parts("C11.R8", c03.r6, c06.r3)
+
+
+r8.parts = _r8_parts
 
 
 def f1(ctx):
